@@ -594,8 +594,12 @@ func (g *G) Scalar(typ string, depth int, label string) Val {
 		v.S = []byte("ctx-" + rapid.StringMatching(`[a-z]{3}`).Draw(t, label+".cm"))
 		if rapid.IntRange(0, 4).Draw(t, label+".cnil") == 0 {
 			v.S, v.Nil = nil, true
-		} else if rapid.IntRange(0, 2).Draw(t, label+".calt") == 0 {
+		} else if c := rapid.IntRange(0, 5).Draw(t, label+".calt"); c <= 1 {
 			v.EK = "alt" // a context with other keys: what an earlier context carried is not visible through it
+		} else if c == 2 {
+			v.EK = "cancelled" // hooks see Err() / Done() of the context they are given
+		} else if c == 3 {
+			v.EK = "deadline"
 		}
 	case "getctx":
 	case "err", "anerr":
